@@ -61,7 +61,9 @@ def C02(tier):
             d = tempfile.mkdtemp()
             try:
                 c = diskcache.Cache(d, disk=disk, disk_pickle_protocol=proto)
-                keys = KEYS + [pickle.dumps((1, 2), protocol=proto)]
+                import pickletools
+                # the bytes twin of a tuple key: exactly what Disk.put stores for it
+                keys = KEYS + [pickletools.optimize(pickle.dumps((1, 2), protocol=proto)), pickle.dumps((1, 2), protocol=proto)]
                 for k1, k2 in itertools.permutations(keys, 2):
                     n += 1
                     c.clear()
@@ -71,6 +73,22 @@ def C02(tier):
                     shared = len(c) == 1
                     exp = deep_key_equal(k1, k2)
                     got = list(c)
+                    if not exp and bad is None:
+                        # every lookup site addresses (key, raw): nothing done to k2 touches the entry of k1
+                        c.clear()
+                        c.set(k1, 'one', expire=1000, tag='t1')
+                        probes = [('in', k2 in c), ('get', c.get(k2)), ('touch', c.touch(k2, expire=-5)), ('pop', c.pop(k2)),
+                                  ('delete', c.delete(k2)), ('add', c.add(k2, 'two'))]
+                        want = [('in', False), ('get', None), ('touch', False), ('pop', None), ('delete', False), ('add', True)]
+                        try:
+                            c.incr(k2, default=None)
+                            probes.append(('incr', 'no KeyError'))
+                        except (KeyError, TypeError):
+                            pass
+                        c.delete(k2)
+                        after = c.get(k1, expire_time=True, tag=True)
+                        if probes != want or after[0] != 'one' or after[2] != 't1' or after[1] is None or len(c) != 1:
+                            bad = (proto, k1, k2, 'operations on the second key gave %r and left the first as %r' % (probes, after), exp, list(c))
                     ok = shared == exp and (shared or (same_structure(got[0], k1) and same_structure(got[1], k2)))
                     if not ok and bad is None:
                         bad = (proto, k1, k2, shared, exp, got)
@@ -1303,7 +1321,44 @@ def C17(tier):
                 shutil.rmtree(d.split('/releases/..')[0], ignore_errors=True)
         if bad:
             break
-    return [result('C17.standin.damage_combinations', bad is None,
+    # a damaged shard that is locked by another connection: check() may fail (Timeout / database is locked),
+    # but it must not come back as if that shard were clean
+    bad3 = None
+    d = tempfile.mkdtemp()
+    try:
+        fan = diskcache.FanoutCache(d, shards=3, timeout=0.05, disk_min_file_size=64)
+        for i in range(9):
+            fan.set('big%d' % i, b'x' * 300)
+        victim = None
+        for dp, dn, fn in os.walk(os.path.join(d, '001')):
+            for f in fn:
+                if f.endswith('.val'):
+                    victim = os.path.join(dp, f)
+        os.remove(victim)
+        con = sqlite3.connect(os.path.join(d, '001', 'cache.db'), isolation_level=None, timeout=0)
+        con.execute('BEGIN IMMEDIATE')
+        try:
+            for fix in (False, True):
+                try:
+                    got = [str(w.message) for w in fan.check(fix=fix)]
+                    if not any('file not found' in m for m in got):
+                        bad3 = bad3 or 'check(fix=%s) returned %r although a damaged shard was locked and could not be examined' % (fix, got)
+                except (diskcache.Timeout, sqlite3.OperationalError):
+                    pass
+        finally:
+            con.execute('ROLLBACK')
+            con.close()
+        if not any('file not found' in str(w.message) for w in fan.check()):
+            bad3 = bad3 or 'the damage is not reported once the lock is released'
+        fan.close()
+    except Exception as e:
+        import traceback
+        bad3 = bad3 or 'raised %r %s' % (e, traceback.format_exc()[-300:])
+    finally:
+        shutil.rmtree(d, ignore_errors=True)
+    extra = [result('C17.standin.locked_shard_is_not_reported_clean', bad3 is None,
+                    'a 3-shard FanoutCache with one damaged, locked shard; check() and check(fix=True)', 2, bad3)]
+    return extra + [result('C17.standin.damage_combinations', bad is None,
                    'all subsets of size <= %d of 13 damage kinds (files deleted/truncated (also to zero bytes)/extended/added at three depths, empty and nested empty directories, count, size) on Cache and a 2-shard FanoutCache' % (2 if tier == 'quick' else 3), cases, bad)]
 
 
